@@ -1705,6 +1705,15 @@ XPathProcessorImpl::FunctionCall()
 
         consumeExpected(XalanUnicode::charColon);
 
+        // The local part of the function name must be a name: "ns:*()"
+        // is not a function call.
+        if (XalanQName::isValidNCName(m_token) == false)
+        {
+            error(
+                XalanMessages::NotValidNCName_1Param,
+                m_token);
+        }
+
         theArgs[1] = m_expression->getTokenPosition() - 1;
 
         m_expression->setOpCodeArgs(XPathExpression::eOP_EXTFUNCTION,
